@@ -212,9 +212,24 @@ func (e *Engine) intrinsic(name string, args []any) any {
 		slack := "none"
 		e.S.Send("(pop)")
 		// phase 2: the same query with slack on every time comparison of the path and of the assertion
-		for _, H := range []string{"3600000000000", "1000000000"} { // 1 h, 1 s
+		type try struct {
+			H     string
+			short bool
+		}
+		var tries []try
+		if len(e.sleepDur) > 0 || e.pendingSleep != "" { // prefer witnesses whose vf.Sleep waits a replay can afford
+			tries = append(tries, try{"3600000000000", true}, try{"1000000000", true}, try{"1000000", true})
+		}
+		tries = append(tries, try{"3600000000000", false}, try{"1000000000", false})
+		for _, t := range tries {
+			H := t.H
 			e.S.Send("(push)")
 			e.S.Send("(assert (not " + c + "))")
+			if t.short {
+				for _, d := range e.sleepDur {
+					e.S.Send("(assert (<= " + d + " 400000000))")
+				}
+			}
 			for _, r := range append(append([]string{}, e.robust...), atoms...) {
 				e.S.Send("(assert " + strings.ReplaceAll(r, "@H", H) + ")")
 			}
